@@ -41,6 +41,7 @@ func (l *LRUCache) Store(key, value interface{}) {
 
 	node, ok := l.nodeMap[key]
 	if ok {
+		node.Value = value
 		l.list.MoveToFront(node)
 		return
 	}
